@@ -39,6 +39,7 @@ type Options struct {
 	Show           string
 	Explain        bool
 	NilAssumed     bool
+	State          string
 }
 
 func main() {
@@ -64,6 +65,7 @@ func main() {
 	flag.StringVar(&o.Frame, "frame", "", "print the inferred frame of a function and exit")
 	flag.StringVar(&o.Show, "show", "", "debug: ;-separated spec expressions evaluated at exit and shown in counterexamples")
 	flag.BoolVar(&o.Explain, "explain", false, "debug: report the failing conjuncts of failed obligations")
+	flag.StringVar(&o.State, "state", "", "directory with known_findings.json and baseline/ (default: parent of -out)")
 	flag.Parse()
 	showExprs = o.Show
 
